@@ -1,0 +1,74 @@
+//go:build verif
+
+// Contracts (machine-checked by /verif/engine, see /verif/DESIGN.md). Comment-only file.
+package packetlimiter
+
+// ---- C34: sliding-window counter (ring buffer) ----------------------------------------------------------
+// Representation invariant: both arrays have the same length n >= 1, head and tail are indices, and every slot OUTSIDE the
+// logical window [head, tail) (cyclically) holds count 0 - add() relies on that when it does counts[tail] += count.
+//@ spec pred inWindow(c *counter, k int) = ite(c.head <= c.tail, c.head <= k && k < c.tail, k >= c.head || k < c.tail)
+//@ spec pred shape(c *counter) = ref(c.times) != ref(c.counts) && len(c.times) >= 1 && len(c.counts) == len(c.times) && 0 <= c.head && c.head < len(c.times) && 0 <= c.tail && c.tail < len(c.times)
+//@ spec pred zeroOutside(c *counter) = forall k int :: 0 <= k && k < len(c.counts) && !inWindow(c, k) ==> c.counts[k] == 0
+//@ spec pred wf(c *counter) = shape(c) && zeroOutside(c)
+
+// expire: drops exactly the leading entries older than now-interval; each dropped entry's count leaves the total and its
+// slot is zeroed; nothing else changes.
+//@ func (*counter).expire
+//@   props C34
+//@   modifies c.head, c.tail, c.total, c.minTime, c.times, c.counts, c.times[*], c.counts[*]
+//@   requires wf(c)
+//@   at-store total: assert [total-loses-expired-count] value == c.total - c.counts[c.head] && c.head != c.tail && c.times[c.head] - (now - c.interval) < 0
+//@   loop 1: invariant [shape] shape(c) && c.tail == old(c.tail) && len(c.times) == old(len(c.times)) && c.interval == old(c.interval)
+//@   loop 1: invariant [zero-outside] zeroOutside(c)
+//@   ensures [shape] shape(c)
+//@   ensures [zero-outside] zeroOutside(c)
+//@   ensures [front-is-fresh] c.head == c.tail || c.times[c.head] - (now - c.interval) >= 0
+//@   ensures [window-start-recorded] c.minTime == now - old(c.interval) && c.tail == old(c.tail) && len(c.times) == old(len(c.times))
+
+// add: an event older than the window is ignored; otherwise it is appended at tail with exactly its count (the slot was 0),
+// the total grows by count and tail advances cyclically (after doubling the buffer when full).
+//@ func (*counter).add
+//@   props C34
+//@   modifies c.head, c.tail, c.total, c.minTime, c.times, c.counts, c.times[*], c.counts[*]
+//@   requires wf(c)
+//@   at-call resize as rs: assert (c.tail + 1) % len(c.times) == c.head
+//@   at-store total: assert [total-gains-count] value == c.total + count && now - c.minTime >= 0
+//@   ensures [stale-ignored] now - old(c.minTime) < 0 ==> c.total == old(c.total) && c.tail == old(c.tail) && c.head == old(c.head)
+//@   ensures [shape] shape(c)
+//@   ensures [zero-outside] zeroOutside(c)
+//@   ensures [appended] now - old(c.minTime) >= 0 && !called(rs) ==> c.tail == (old(c.tail) + 1) % len(c.times) && c.times[old(c.tail)] == now && c.counts[old(c.tail)] == count && c.total == old(c.total) + count && c.head == old(c.head)
+
+//@ func (*counter).updateAndAdd
+//@   props C34
+//@   modifies c.head, c.tail, c.total, c.minTime, c.times, c.counts, c.times[*], c.counts[*]
+//@   requires wf(c)
+//@   at-call expire as ex: assert arg0 == c && arg1 == now
+//@   at-call add as ad: assert called(ex) && arg0 == c && arg1 == now && arg2 == count
+//@   ensures [expire-then-add] called(ex) && called(ad)
+//@   ensures [shape] shape(c)
+//@   ensures [zero-outside] zeroOutside(c)
+
+// resize (called only when the ring is full): the buffer doubles, the window moves to the front unchanged, in order.
+//@ func (*counter).resize
+//@   props C34
+//@   modifies c.head, c.tail, c.total, c.minTime, c.times, c.counts, c.times[*], c.counts[*]
+//@   requires wf(c) && (c.tail + 1) % len(c.times) == c.head
+//@   ensures [shape] shape(c)
+//@   ensures [zero-outside] zeroOutside(c)
+//@   ensures [doubled-and-rebased] len(c.times) == 2 * old(len(c.times)) && c.head == 0 && c.tail == old(len(c.times)) - 1 && c.total == old(c.total) && c.minTime == old(c.minTime) && c.interval == old(c.interval)
+//@   ensures [window-preserved-in-order] forall k int :: 0 <= k && k < c.tail ==> c.times[k] == old(c.times[(c.head + k) % len(c.times)]) && c.counts[k] == old(c.counts[(c.head + k) % len(c.counts)])
+
+// The limiter: disabled (nil) iff the window is non-positive or both rates are; every accounted packet adds 1 packet and
+// its size in bytes at the same timestamp, under the limiter's lock.
+//@ guarded_by Limiter.mu : packets, bytes
+//@ monitor Limiter.mu (l) : (l.packets != nil ==> wf(l.packets)) && (l.bytes != nil ==> wf(l.bytes)) && (l.packets != nil && l.bytes != nil ==> l.packets != l.bytes && ref(l.packets.counts) != ref(l.bytes.counts) && ref(l.packets.counts) != ref(l.bytes.times) && ref(l.packets.times) != ref(l.bytes.counts) && ref(l.packets.times) != ref(l.bytes.times))
+//@ func New
+//@   props C34
+//@   ensures [nil-iff-disabled] (result == nil) == (window <= 0 || (packetsPerSecond <= 0 && bytesPerSecond <= 0))
+//@ func (*Limiter).Account
+//@   props C34
+//@   at-call Now as clk
+//@   at-call UnixNano as ns: assert arg0 == res(clk)
+//@   at-call updateAndAdd#1 as p: assert arg0 == l.packets && l.packets != nil && arg1 == 1 && arg2 == res(ns) && held(l.mu) == wlocked
+//@   at-call updateAndAdd#2 as b: assert arg0 == l.bytes && l.bytes != nil && arg1 == int64(bytes) && arg2 == res(ns) && held(l.mu) == wlocked
+//@   ensures [nil-allows] l == nil ==> result
